@@ -102,7 +102,23 @@ func (s *srvSim) check() {
 			} else {
 				s.canon[x] = hh
 				s.topAt[x] = s.now()
+				if prev, ok := s.topAt[x-1]; ok && x > 1 && s.sp.Sync && !s.settling {
+					// fault-free configuration: blocks keep being produced at the configured rate. One block time plus
+					// three rounds of three hops is the worst case without a view change; a view change (the backups'
+					// timer is two block times) always takes longer than two block times.
+					gap := s.now() - prev
+					r.out.Probes["sync_block_intervals"]++
+					r.out.Probes["sync_block_interval_ms_total"] += int(gap / time.Millisecond)
+					if gap > 1500*time.Millisecond {
+						r.out.Probes["sync_block_interval_above_1500ms"]++
+					}
+					if gap > 2*blockTimeMS*time.Millisecond {
+						r.violate(sim.Violatef("liveness", "liveness/block-interval", "fault-free configuration (delays <= %d ms, block time %d ms): block %d is first seen %d ms after block %d", s.sp.MaxDelayMS, blockTimeMS, x, gap/time.Millisecond, x-1))
+						return
+					}
+				}
 				r.log.Addf("t=%dms height %d = %s", s.ms(), x, hh.StringLE()[:8])
+				s.lateTxs(x)
 			}
 			sr, err := bc.GetStateRoot(x)
 			if err != nil {
@@ -129,6 +145,12 @@ func (s *srvSim) check() {
 				r.violate(sim.Violatef("srv-own-block-not-applied", "", "%s: its consensus service approved block %s for height %d, the ledger is still at height %d", v.name(), own[:8], x, h))
 				return
 			}
+		}
+		if s.sp.Sync && !s.settling && v.caughtUp != 0 && h+2 < s.top() {
+			// fault-free configuration: a node that has caught up stays in lockstep (a block reaches it within a fraction
+			// of a block time: three hops of at most MaxDelayMS each)
+			r.violate(sim.Violatef("liveness", "liveness/lockstep/"+srvKindNames[v.kind], "fault-free configuration (delays <= %d ms): %s, caught up since %d ms, is at height %d while the top is %d at %d ms", s.sp.MaxDelayMS, v.name(), v.caughtUp/time.Millisecond, h, s.top(), s.ms()))
+			return
 		}
 		if v.caughtUp == 0 && h+2 >= s.top() && h > 0 {
 			v.caughtUp = s.now()
@@ -407,5 +429,44 @@ func (s *srvSim) finalSrv() {
 			r.out.Probes["disconnect/"+k] += n
 		}
 		v.lc.mu.Unlock()
+	}
+}
+
+// lateTxs: block x has just been seen for the first time; the next proposal is due one block time after its timestamp.
+func (s *srvSim) lateTxs(x uint32) {
+	// (block timestamps are of no use: the simulated clock is behind the genesis timestamp, every block is "previous + 1 ms")
+	var at0 time.Time
+	for _, o := range s.nodes {
+		if o == nil {
+			continue
+		}
+		o.lc.mu.Lock()
+		if t, ok := o.lc.proposedAt[x]; ok && t.After(at0) {
+			at0 = t
+		}
+		o.lc.mu.Unlock()
+	}
+	if at0.IsZero() {
+		return
+	}
+	proposed := at0.Sub(s.start)
+	for _, lt := range s.sp.Late {
+		if uint32(lt.Height) != x {
+			continue
+		}
+		lt := lt
+		at := proposed + blockTimeMS*time.Millisecond - time.Duration(lt.BeforeMS)*time.Millisecond
+		if at <= s.now() {
+			s.r.out.Probes["late_tx_too_late"]++
+			s.r.log.Addf("late tx for height %d: proposed at %dms, due %dms, now %dms", x, proposed/time.Millisecond, at/time.Millisecond, s.ms())
+			continue
+		}
+		if netDebug {
+			s.r.log.Addf("late tx for height %d: proposed at %dms, due %dms, now %dms", x, proposed/time.Millisecond, at/time.Millisecond, s.ms())
+		}
+		s.ns.at(at, func() {
+			s.r.out.Probes["late_tx_submitted"]++
+			s.ns.clientTx(NetTx{AtMS: int(at / time.Millisecond), Op: lt.Op, Targets: 1 << uint(lt.Node)})
+		})
 	}
 }
